@@ -753,6 +753,18 @@ impl Universe for UT {
         }
     }
 
+    fn abandon(mut r: Real, cx: &mut Ctx) {
+        while let Some(h) = r.hs.pop() {
+            cap(|| release_real(h));
+        }
+        r.invariant(cx);
+        for e in vrt::arena::errors_since(0) {
+            if e.kind == vrt::arena::ErrKind::DoubleFree {
+                cx.fail(LIFETIME, "double-free", format!("{:?}", e));
+            }
+        }
+    }
+
     fn key(m: &Model) -> Vec<u8> {
         let mut best: Option<Vec<u8>> = None;
         for perm in [[0usize, 1], [1, 0]] {
